@@ -66,7 +66,40 @@ func hC15History() {
 	used := newPipe(cfg)
 	used.backend.closeBody = closeBody
 	used.backend.readFirst = readFirst
-	history := verifChoose("history", 7)
+	// thorough: two earlier RPCs (every ordered pair of history kinds)
+	rounds := 1
+	if verifTier() == 1 {
+		rounds = 2
+	}
+	for round := 0; round < rounds; round++ {
+		c15History(used, cfg, verifChoose("history", 7))
+	}
+
+	verifObsBytes("fresh-backend-body", want.body)
+	verifObsBytes("fresh-client-body", want.out)
+	// the probe is repeated: which pooled object a later RPC is handed depends on how many Gets and Puts
+	// came before it, so damage done by the earlier RPC may only surface on the second or third probe
+	for i := 0; i < 3; i++ {
+		got := runProbe(used, cfg, reqMsgs, respMsgs, cfg.svcComp)
+		verifObsBytes("used-backend-body", got.body)
+		verifObsBytes("used-client-body", got.out)
+		verifReach("probe-after-history")
+		verifAssert(bytesEq(want.body, got.body) && bytesEq(want.out, got.out), "C01: a well-formed RPC served after earlier (failed) traffic delivers the same message bytes in both directions")
+		verifAssert(want.calls == got.calls, "C15: dispatch independent of earlier traffic")
+		verifAssert(bytesEq(want.body, got.body) && want.readErr == got.readErr, "C15: request delivered to the backend independent of earlier traffic")
+		verifAssert(want.status == got.status && bytesEq(want.out, got.out), "C15: response independent of earlier traffic")
+		verifAssert(headersEqual(want.hdr, got.hdr), "C15: response headers/trailers independent of earlier traffic")
+	}
+	// sanity: the fresh probe itself succeeds (otherwise the comparison says little)
+	out := refParseClientResponse(cfg, fresh.sink, true)
+	verifAssert(out.valid && out.code == 0, "C15: probe RPC succeeds on a fresh transcoder")
+}
+
+// c15History runs one earlier RPC (or seeds the pools) on the used transcoder.
+func c15History(used *pipeRun, cfg *pipeCfg, history int) {
+	used.sink = newFakeSink()
+	used.body = &fakeBody{}
+	used.backend.rec = backendRecord{}
 	switch history {
 	case 0: // an earlier valid RPC with different (larger) contents
 		runProbe(used, cfg, []wireMsg{{abstract: []byte("OLDOLD1"), compressed: true}}, []wireMsg{{abstract: []byte("OLDRESP")}}, false)
@@ -119,24 +152,6 @@ func hC15History() {
 		cc.Write([]byte("half")) // never closed
 		pool.compressors.Put(cc)
 	}
-	verifObsBytes("fresh-backend-body", want.body)
-	verifObsBytes("fresh-client-body", want.out)
-	// the probe is repeated: which pooled object a later RPC is handed depends on how many Gets and Puts
-	// came before it, so damage done by the earlier RPC may only surface on the second or third probe
-	for i := 0; i < 3; i++ {
-		got := runProbe(used, cfg, reqMsgs, respMsgs, cfg.svcComp)
-		verifObsBytes("used-backend-body", got.body)
-		verifObsBytes("used-client-body", got.out)
-		verifReach("probe-after-history")
-		verifAssert(bytesEq(want.body, got.body) && bytesEq(want.out, got.out), "C01: a well-formed RPC served after earlier (failed) traffic delivers the same message bytes in both directions")
-		verifAssert(want.calls == got.calls, "C15: dispatch independent of earlier traffic")
-		verifAssert(bytesEq(want.body, got.body) && want.readErr == got.readErr, "C15: request delivered to the backend independent of earlier traffic")
-		verifAssert(want.status == got.status && bytesEq(want.out, got.out), "C15: response independent of earlier traffic")
-		verifAssert(headersEqual(want.hdr, got.hdr), "C15: response headers/trailers independent of earlier traffic")
-	}
-	// sanity: the fresh probe itself succeeds (otherwise the comparison says little)
-	out := refParseClientResponse(cfg, fresh.sink, true)
-	verifAssert(out.valid && out.code == 0, "C15: probe RPC succeeds on a fresh transcoder")
 }
 
 // hC15RestVars: a REST backend route with path variables: the request built for one RPC does not depend on
